@@ -1,3 +1,302 @@
-/-! C13 property theorems — stub (not built yet). -/
+import TTModel.C13_Json
+import TTModel.C13_Loader
+import TTGen.C13_LoaderCfg
+import TTProofs.Lemmas.C13_Loader
+import TTProofs.Lemmas.C13_Comments
+/-!
+# C13 — in a model specification every id denotes exactly one shared object
+
+The loader theorems are about `TT.C13.processObject cfg tbl` for EVERY class table `tbl`, every
+nesting depth (`fuel`) and every JSON value, under the single hypothesis `cfg.checkAfter = true`
+("the duplicate test stands between construction and registration").  `TTGen.C13.cfg` is
+regenerated from `torchtree/core/utils.py:process_object` on every run; `source_is_fixed` below
+ties the hypothesis to the source, so on a tree without the F01 repair this file stops building.
+-/
 namespace TTProps.C13
+open TT.C13 TT.C13.Json
+
+/-- the translator recognised the shape of `process_object` -/
+theorem translator_recognised : TTGen.C13.recognised = true := by decide
+
+/-- the source tests for an existing id before construction AND again before registration -/
+theorem source_is_fixed : TTGen.C13.cfg = Cfg.fixed := by decide
+
+variable {ν : Type}
+
+/-- (for the concrete examples) a successful result satisfying a decidable test -/
+def okWith {α : Type} (r : Except Err (α × St)) (p : α → St → Bool) : Bool :=
+  match r with
+  | .ok (a, st) => p a st
+  | .error _ => false
+/-- (for the concrete examples) a failed result with exactly this error -/
+def failsWith {α : Type} (r : Except Err α) (e : Err) : Bool :=
+  match r with
+  | .ok _ => false
+  | .error e' => decide (e' = e)
+
+/-! ## references -/
+
+/-- **ref_resolves_to_registered**: a (plain) string evaluates to the address registered under
+it — leaving the state untouched — or to `notFound`; nothing else can happen. -/
+theorem ref_resolves_to_registered (cfg : Cfg) (tbl : ClassTable) (fuel : Nat) (s : String)
+    (hs : s.toList.contains '{' = false) (st : St) :
+    processObject (ν := ν) cfg tbl (fuel + 1) (.str s) st =
+      match regLookup s st.reg with
+      | some a => .ok (a, st)
+      | none => .error (.notFound s) := by
+  simp only [processObject, resolveRef, hs]
+  cases regLookup s st.reg <;> simp
+
+/-- forward references fail: an id that is not registered NOW is rejected, whatever the rest of
+the file defines later -/
+theorem forward_ref_fails (cfg : Cfg) (tbl : ClassTable) (fuel : Nat) (s : String)
+    (hs : s.toList.contains '{' = false) (st : St) (h : regLookup s st.reg = none)
+    (rest : List (Json ν)) :
+    loadAll cfg tbl (fuel + 1) (.str s :: rest) st = .error (.notFound s) := by
+  simp [loadAll, processObjects, processMany, ref_resolves_to_registered cfg tbl fuel s hs st, h]
+
+example : failsWith (loadAll (ν := Unit) Cfg.fixed classTable 3
+    [.str "a", .obj [("id", .str "a"), ("type", .str "VLeaf")]] ⟨[], []⟩) (.notFound "a") = true := by
+  decide +kernel
+
+/-! ## uniqueness -/
+
+/-- a definition of an id that is already registered is rejected on the spot -/
+theorem duplicate_rejected (cfg : Cfg) (hb : cfg.checkBefore = true) (tbl : ClassTable) (fuel : Nat)
+    (data : List (String × Json ν)) (id : String) (a : Addr) (st : St)
+    (hid : lookup "id" data = some (.str id)) (h : regLookup id st.reg = some a) :
+    processObject cfg tbl (fuel + 1) (.obj data) st = .error (.duplicate id) := by
+  simp [processObject, hid, hb, h]
+
+/-- **load_ids_unique**: if a whole load succeeds, the objects constructed during it — one per
+object literal met, at ANY depth — carry pairwise distinct ids, none of which was in the initial
+registry; and the final registry is exactly the initial one followed by one entry
+`id ↦ address` per constructed object, in construction order.  Equivalently: a second definition
+of an id anywhere in the nesting makes the load fail. -/
+theorem load_ids_unique (cfg : Cfg) (hc : cfg.checkAfter = true) (tbl : ClassTable) (fuel : Nat)
+    (xs : List (Json ν)) (st0 st1 : St) (rs : List (List Addr))
+    (hnd : (keys st0.reg).Nodup)
+    (h : loadAll cfg tbl fuel xs st0 = .ok (rs, st1)) :
+    ∃ objs : List Obj,
+      st1.heap = st0.heap ++ objs ∧
+      st1.reg = st0.reg ++ entries st0.heap.length objs ∧
+      (objs.map (·.id)).Nodup ∧
+      (∀ o ∈ objs, o.id ∉ keys st0.reg) ∧
+      (keys st1.reg).Nodup := by
+  have hg := loadAll_good cfg hc tbl fuel xs st0 rs st1 h
+  rcases hg with ⟨⟨objs, hh, hr⟩, hn⟩
+  have hn1 := hn hnd
+  refine ⟨objs, hh, hr, ?_, ?_, hn1⟩
+  · have : (keys st1.reg) = keys st0.reg ++ objs.map (·.id) := by
+      rw [hr]; simp [keys, ← keys_entries st0.heap.length objs]
+    rw [NodupKeys, this, List.nodup_append] at hn1
+    exact hn1.2.1
+  · intro o ho hmem
+    have : (keys st1.reg) = keys st0.reg ++ objs.map (·.id) := by
+      rw [hr]; simp [keys, ← keys_entries st0.heap.length objs]
+    rw [NodupKeys, this, List.nodup_append] at hn1
+    exact hn1.2.2 _ hmem _ (List.mem_map_of_mem ho) rfl
+
+/-- the same for one `process_object` call at any depth of the nesting -/
+theorem object_ids_unique (cfg : Cfg) (hc : cfg.checkAfter = true) (tbl : ClassTable) (fuel : Nat)
+    (j : Json ν) (st0 st1 : St) (a : Addr) (hnd : (keys st0.reg).Nodup)
+    (h : processObject cfg tbl fuel j st0 = .ok (a, st1)) :
+    ∃ objs : List Obj,
+      st1.heap = st0.heap ++ objs ∧ st1.reg = st0.reg ++ entries st0.heap.length objs ∧
+      (keys st1.reg).Nodup := by
+  rcases processObject_good cfg hc tbl fuel j st0 a st1 h with ⟨⟨objs, hh, hr⟩, hn⟩
+  exact ⟨objs, hh, hr, hn hnd⟩
+
+/-- every object literal that is processed successfully is allocated at the returned address,
+carries the literal's id, is registered under that id, and the id was not registered before -/
+theorem literal_registered (cfg : Cfg) (hb : cfg.checkBefore = true) (tbl : ClassTable) (fuel : Nat)
+    (data : List (String × Json ν)) (st st' : St) (a : Addr)
+    (h : processObject cfg tbl fuel (.obj data) st = .ok (a, st')) :
+    ∃ id, lookup "id" data = some (.str id) ∧ regLookup id st.reg = none ∧
+      regLookup id st'.reg = some a ∧ (st'.heap[a]?).map (·.id) = some id := by
+  cases fuel with
+  | zero => simp [processObject] at h
+  | succ fuel =>
+    unfold processObject at h
+    simp only at h
+    split at h
+    · cases h
+    · rename_i id hid
+      refine ⟨id, hid, ?_⟩
+      simp only [hb, Bool.true_and] at h
+      split at h
+      · cases h
+      · rename_i hno
+        have hnone : regLookup id st.reg = none := by
+          cases hl : regLookup id st.reg with
+          | none => rfl
+          | some x => simp [hl] at hno
+        refine ⟨hnone, ?_⟩
+        split at h
+        · cases h
+        · split at h
+          · cases h
+          · split at h
+            · split at h
+              · split at h <;> cases h
+              · split at h <;> cases h
+            · split at h
+              · cases h
+              · cases h
+                constructor
+                · -- registered at the new address
+                  clear hno
+                  rename_i st1 _ _
+                  generalize st1.reg = reg
+                  induction reg with
+                  | nil => simp [regSet, regLookup]
+                  | cons e rest ih =>
+                    rcases e with ⟨k', a'⟩
+                    by_cases hk : k' = id <;> simp [regSet, regLookup, hk, ih]
+                · simp
+        · cases h
+    · cases h
+
+/-! ## monotonicity and sharing -/
+
+/-- **registry_monotone**: an entry, once registered, is never replaced or removed by anything a
+load does afterwards -/
+theorem registry_monotone (cfg : Cfg) (hc : cfg.checkAfter = true) (tbl : ClassTable) (fuel : Nat)
+    (xs : List (Json ν)) (st0 st1 : St) (rs : List (List Addr))
+    (h : loadAll cfg tbl fuel xs st0 = .ok (rs, st1)) (k : String) (a : Addr)
+    (hk : regLookup k st0.reg = some a) :
+    regLookup k st1.reg = some a ∧ (a < st0.heap.length → st1.heap[a]? = st0.heap[a]?) := by
+  rcases (loadAll_good cfg hc tbl fuel xs st0 rs st1 h).1 with ⟨objs, hh, hr⟩
+  constructor
+  · rw [hr]; exact regLookup_append_left _ _ _ _ hk
+  · intro ha; rw [hh, List.getElem?_append_left ha]
+
+/-- the same across one `process_object` call (any depth) -/
+theorem registry_monotone_object (cfg : Cfg) (hc : cfg.checkAfter = true) (tbl : ClassTable)
+    (fuel : Nat) (j : Json ν) (st0 st1 : St) (r : Addr)
+    (h : processObject cfg tbl fuel j st0 = .ok (r, st1)) (k : String) (a : Addr)
+    (hk : regLookup k st0.reg = some a) :
+    regLookup k st1.reg = some a := by
+  rcases (processObject_good cfg hc tbl fuel j st0 r st1 h).1 with ⟨objs, _, hr⟩
+  rw [hr]; exact regLookup_append_left _ _ _ _ hk
+
+/-- **sharing**: two holders that resolved the same id — one at any point of a load, the other at
+any later point of it (after any further successful loading) — hold the same address, i.e. the
+same object instance; an update made through one is seen by the other. -/
+theorem sharing (cfg : Cfg) (hc : cfg.checkAfter = true) (tbl : ClassTable) (fuel f1 f2 : Nat)
+    (s : String) (hs : s.toList.contains '{' = false)
+    (xs : List (Json ν)) (st1 st2 st1' st2' : St) (rs : List (List Addr)) (a1 a2 : Addr)
+    (h1 : processObject (ν := ν) cfg tbl (f1 + 1) (.str s) st1 = .ok (a1, st1'))
+    (hmid : loadAll cfg tbl fuel xs st1' = .ok (rs, st2))
+    (h2 : processObject (ν := ν) cfg tbl (f2 + 1) (.str s) st2 = .ok (a2, st2')) :
+    a1 = a2 := by
+  rw [ref_resolves_to_registered cfg tbl f1 s hs] at h1
+  rw [ref_resolves_to_registered cfg tbl f2 s hs] at h2
+  cases hl1 : regLookup s st1.reg with
+  | none => simp [hl1] at h1
+  | some b1 =>
+    simp only [hl1, Except.ok.injEq, Prod.mk.injEq] at h1
+    rcases h1 with ⟨rfl, rfl⟩
+    have := (registry_monotone cfg hc tbl fuel xs st1 st2 rs hmid s b1 hl1).1
+    simp [this] at h2
+    exact h2.1
+
+/-- a holder of an id holds the object literal that defined it: resolving `id` after the literal
+was processed yields the address the literal was allocated at -/
+theorem ref_is_the_literal (cfg : Cfg) (hb : cfg.checkBefore = true) (hc : cfg.checkAfter = true)
+    (tbl : ClassTable) (fuel fuel' f2 : Nat) (data : List (String × Json ν)) (id : String)
+    (hs : id.toList.contains '{' = false) (hid : lookup "id" data = some (.str id))
+    (st st1 st2 : St) (a : Addr) (xs : List (Json ν)) (rs : List (List Addr))
+    (h : processObject cfg tbl fuel (.obj data) st = .ok (a, st1))
+    (hmid : loadAll cfg tbl fuel' xs st1 = .ok (rs, st2)) :
+    processObject (ν := ν) cfg tbl (f2 + 1) (.str id) st2 = .ok (a, st2) := by
+  rcases literal_registered cfg hb tbl fuel data st st1 a h with ⟨id', hid', _, hreg, _⟩
+  rw [hid] at hid'
+  cases hid'
+  have := (registry_monotone cfg hc tbl fuel' xs st1 st2 rs hmid id a hreg).1
+  rw [ref_resolves_to_registered cfg tbl f2 id hs, this]
+
+/-- non-vacuity: a parameter defined once and held by two objects; both hold address 0 -/
+example : okWith (loadAll (ν := Unit) Cfg.fixed classTable 3
+    [ .obj [("id", .str "p"), ("type", .str "VLeaf")],
+      .obj [("id", .str "q"), ("type", .str "VPair"), ("a", .str "p"), ("b", .str "p")] ] ⟨[], []⟩)
+    (fun rs st => decide (rs = [[0], [1]]) && decide (st.reg = [("p", 0), ("q", 1)]) &&
+      decide (st.heap = [⟨"VLeaf", "p", []⟩, ⟨"VPair", "q", [("a", [0]), ("b", [0])]⟩])) = true := by
+  decide +kernel
+
+/-! ## the defect F01 (behaviour before the repair), as a concrete witness -/
+
+/-- without the post-construction test a child carrying its parent's id is ACCEPTED: two objects
+carry the id `a` and the registry keeps only the parent -/
+theorem unfixed_accepts_duplicate :
+    okWith (loadAll (ν := Unit) Cfg.unfixed classTable 3
+      [.obj [("id", .str "a"), ("type", .str "VOne"),
+             ("x", .obj [("id", .str "a"), ("type", .str "VLeaf")])]] ⟨[], []⟩)
+      (fun rs st => decide (rs = [[1]]) && decide (st.reg = [("a", 1)]) &&
+        decide (st.heap = [⟨"VLeaf", "a", []⟩, ⟨"VOne", "a", [("x", [0])]⟩])) = true := by
+  decide +kernel
+
+/-- … and with it the same specification is rejected -/
+theorem fixed_rejects_duplicate :
+    failsWith (loadAll (ν := Unit) Cfg.fixed classTable 3
+      [.obj [("id", .str "a"), ("type", .str "VOne"),
+             ("x", .obj [("id", .str "a"), ("type", .str "VLeaf")])]] ⟨[], []⟩) (.duplicate "a") = true := by
+  decide +kernel
+
+/-! ## comments -/
+section
+variable [JNum ν]
+
+/-- **comments_removed**: after `remove_comments` no key starting with an underscore and no dict
+with a truthy `ignore` is left, at any depth -/
+theorem comments_removed (j : Json ν) : clean (removeComments j) = true :=
+  clean_removeComments j
+
+/-- **comments_noop_when_absent** -/
+theorem comments_noop_when_absent (j : Json ν) (h : clean j = true) : removeComments j = j :=
+  removeComments_of_clean j h
+
+/-- **comments_idempotent** -/
+theorem comments_idempotent (j : Json ν) : removeComments (removeComments j) = removeComments j :=
+  removeComments_of_clean _ (clean_removeComments j)
+
+/-- an underscore key, or a key holding an ignored object, has no effect wherever it is inserted
+in a dict (whatever it holds — including object literals re-using ids of the specification) -/
+theorem comment_key_no_effect (pre post : List (String × Json ν)) (k : String) (v : Json ν)
+    (h : underscore k = true ∨ ignored v = true) :
+    removeComments (.obj (pre ++ (k, v) :: post)) = removeComments (.obj (pre ++ post)) := by
+  have : rcFields ((k, v) :: post) = rcFields post := by
+    rcases h with h | h <;> simp [rcFields, h]
+  simp only [removeComments, rcFields_append, this]
+
+/-- an ignored object has no effect wherever it is inserted in a list -/
+theorem ignored_element_no_effect (pre post : List (Json ν)) (x : Json ν) (h : ignored x = true) :
+    removeComments (.arr (pre ++ x :: post)) = removeComments (.arr (pre ++ post)) := by
+  have : rcList (x :: post) = rcList post := by simp [rcList, h]
+  simp only [removeComments, rcList_append, this]
+
+/-- … and the surrounding context does not matter: cleaning is a congruence -/
+theorem comments_congr_field (pre post : List (String × Json ν)) (k : String) (v v' : Json ν)
+    (hi : ignored v' = ignored v) (h : removeComments v' = removeComments v) :
+    removeComments (.obj (pre ++ (k, v') :: post)) = removeComments (.obj (pre ++ (k, v) :: post)) := by
+  simp only [removeComments, rcFields_append, rcFields, hi, h]
+
+theorem comments_congr_elem (pre post : List (Json ν)) (x x' : Json ν)
+    (hi : ignored x' = ignored x) (h : removeComments x' = removeComments x) :
+    removeComments (.arr (pre ++ x' :: post)) = removeComments (.arr (pre ++ x :: post)) := by
+  simp only [removeComments, rcList_append, rcList, hi, h]
+
+end
+
+instance : JNum Int := ⟨fun x => x != 0⟩
+
+/-- non-vacuity: an ignored element, an underscore key, a falsy `ignore` (kept) and an ignored value -/
+example : (match removeComments (ν := Int)
+    (.arr [.obj [("ignore", .num 1), ("id", .str "a")],
+           .obj [("_c", .str "x"), ("id", .str "a"), ("ignore", .num 0),
+                 ("k", .obj [("ignore", .str "yes")])]]) with
+    | .arr [.obj [("id", .str "a"), ("ignore", .num 0)]] => true
+    | _ => false) = true := by
+  decide +kernel
+
 end TTProps.C13
